@@ -37,11 +37,11 @@ REFCACHE_CFG = {"quick": "RefCache_q.cfg", "thorough": "RefCache_t.cfg"}
 # reference-cache states replayed into the real cache: all up to this depth ...
 RC_ALL_DEPTH = {"quick": 3, "thorough": 4}
 # ... plus a seeded sample of the deeper ones
-RC_SAMPLE = {"quick": 2500, "thorough": 60000}
+RC_SAMPLE = {"quick": 2500, "thorough": 10 ** 9}      # thorough replays every state
 # generous: a loaded machine must not turn into a machinery failure
 TIMEOUT = {"quick": 1200, "thorough": 3000}
 # traces per TLC validation JVM (memory: ~1 GB per 10 MB of traces)
-CASES_PER_SHARD = {"rc": 700, "ct": 1500}
+CASES_PER_SHARD = {"rc": 1000, "ct": 1500}
 FINDINGS = os.path.join(tlc.VERIF, "findings")
 MAX_REPORTED = 25          # replay files written / VIOLATION lines printed per run
 
